@@ -57,13 +57,57 @@ def photos_flags(p, m):
     return buf.getvalue()
 
 
+def _rows_private(p, m, with_photos):
+    return [mode_tuple(p._decay_mode_details(t, with_photos)) for t in p._find_decay_modes(m)]
+
+
+def _rows_public(p, m, with_photos):
+    """The same rows through public queries only (used when the private per-line helpers are renamed or removed by a refactoring)."""
+    modes = p.list_decay_modes(m)
+    chain = p.build_decay_chains(m, stable_particles=[x for fs in modes for x in fs])
+    rows = [(d["bf"], tuple(fs), d["model"], tuple(params_canon(d["model_params"]))) for fs, d in zip(modes, chain[m])]
+    if with_photos and rows:
+        # PHOTOS flags from the printed table: rows are printed by decreasing branching fraction, file order among equal values
+        printed = [ln for ln in photos_flags(p, m).splitlines() if ln.strip()]
+        order = sorted(range(len(rows)), key=lambda i: -rows[i][0])
+        if len(printed) == len(rows):
+            flags = {}
+            for row, i in zip(printed, order):
+                toks = row.rstrip().rstrip(";").split()
+                k = 1 + len(rows[i][1])
+                flags[i] = len(toks) > k and toks[k] == "PHOTOS"
+            rows = [(r[0], r[1], ("PHOTOS " if flags.get(i) else "") + r[2], r[3]) for i, r in enumerate(rows)]
+    return rows
+
+
+_mode = {"private": None}
+
+
+def tables_of_mother(p, m):
+    """Rows of one mother without the PHOTOS keyword."""
+    if _mode["private"] is not False:
+        try:
+            rows = _rows_private(p, m, False)
+            _mode["private"] = True
+            return rows
+        except (AttributeError, TypeError):
+            _mode["private"] = False
+    return _rows_public(p, m, False)
+
+
 def tables(p, with_photos=True):
-    """{mother: [(bf, fs, model-with-PHOTOS, params)]} via the private per-line detail function (fast path used by most monitors)."""
+    """{mother: [(bf, fs, model-with-PHOTOS, params)]}: fast path through the per-line detail helper, public queries otherwise."""
     out = {}
     for m in p.list_decay_mother_names():
-        rows = []
-        for t in p._find_decay_modes(m):
-            rows.append(mode_tuple(p._decay_mode_details(t, with_photos)))
+        if _mode["private"] is not False:
+            try:
+                rows = _rows_private(p, m, with_photos)
+                _mode["private"] = True
+            except (AttributeError, TypeError):
+                _mode["private"] = False
+                rows = _rows_public(p, m, with_photos)
+        else:
+            rows = _rows_public(p, m, with_photos)
         out.setdefault(m, rows) if m not in out else out.__setitem__(m + "#dup", rows)
     return out
 
